@@ -14,6 +14,7 @@ mod cmp;
 mod date;
 mod filter;
 mod history;
+mod parse;
 mod pool;
 mod render;
 mod trace_arrays;
@@ -49,6 +50,9 @@ pub fn dispatch(rec: &J) -> Outcome {
     }
     if kind == "mathcase" || kind == "bigcheck" {
         return Outcome::ok(true); // evaluated by the trace stage (binding B)
+    }
+    if kind == "parse" {
+        return parse::run(rec);
     }
     if kind == "date" {
         return date::run(rec);
